@@ -651,3 +651,131 @@ Proof.
   intros Hv Hord. destruct (valid_nfa_parts n Hv) as (_ & _ & Hinit & _).
   eapply lang_eq_trans; [apply fa_elim_lang; assumption|apply gnfa_of_nfa_lang; exact Hv].
 Qed.
+
+(* ---------- the derivative matcher decides the denotation ---------- *)
+Lemma nullable_spec r : nullable r = true <-> rden r [].
+Proof.
+  induction r as [| |a|r IHr s IHs|r IHr s IHs|r IHr]; simpl.
+  - split; [discriminate|intros []].
+  - unfold l_eps. tauto.
+  - split; [discriminate|intro H; discriminate].
+  - rewrite orb_true_iff, IHr, IHs. unfold l_union. tauto.
+  - rewrite andb_true_iff, IHr, IHs. split.
+    + intros [H1 H2]. exists [], []. repeat split; assumption.
+    + intros (u & v & E & Hu & Hv). symmetry in E. apply app_eq_nil in E. destruct E; subst. tauto.
+  - split; [intros _; apply star_nil|reflexivity].
+Qed.
+
+Lemma s_union_den r s w : rden (s_union r s) w <-> rden r w \/ rden s w.
+Proof.
+  destruct r; destruct s; simpl; unfold l_union, l_empty; tauto.
+Qed.
+
+Lemma s_cat_den r s w : rden (s_cat r s) w <-> l_cat (rden r) (rden s) w.
+Proof.
+  assert (Hl : forall A : lang, l_cat l_eps A w <-> A w).
+  { intro A. split; [intros (u & v & -> & -> & H); exact H|intro H; exists [], w; repeat split; exact H]. }
+  assert (Hr : forall A : lang, l_cat A l_eps w <-> A w).
+  { intro A. split; [intros (u & v & -> & H & ->); rewrite app_nil_r; exact H|].
+    intro H. exists w, []. rewrite app_nil_r. repeat split; exact H. }
+  assert (He1 : forall A : lang, l_cat l_empty A w <-> False).
+  { intro A. split; [intros (u & v & _ & [] & _)|intros []]. }
+  assert (He2 : forall A : lang, l_cat A l_empty w <-> False).
+  { intro A. split; [intros (u & v & _ & _ & [])|intros []]. }
+  destruct r; destruct s; simpl;
+    repeat match goal with
+    | |- context [l_cat l_empty ?A w] => rewrite (He1 A)
+    | |- context [l_cat ?A l_empty w] => rewrite (He2 A)
+    end;
+    try rewrite Hl; try rewrite Hr; unfold l_empty, l_eps; try tauto; try reflexivity.
+Qed.
+
+Lemma star_cons_inv (A : lang) a w : l_star A (a :: w) ->
+  exists u v, w = u ++ v /\ A (a :: u) /\ l_star A v.
+Proof.
+  intro H. remember (a :: w) as x eqn:Ex. revert a w Ex.
+  induction H as [|u v Hu Hv IH]; intros a w Ex; [discriminate|].
+  destruct u as [|b u]; simpl in Ex.
+  - apply IH. exact Ex.
+  - inversion Ex; subst. exists u, v. repeat split; assumption.
+Qed.
+
+Lemma deriv_spec a r : forall w, rden (deriv a r) w <-> rden r (a :: w).
+Proof.
+  induction r as [| |b|r IHr s IHs|r IHr s IHs|r IHr]; intro w; simpl.
+  - tauto.
+  - unfold l_empty, l_eps. split; [intros []|discriminate].
+  - destruct (Nat.eqb a b) eqn:E; simpl.
+    + apply Nat.eqb_eq in E. subst b. unfold l_eps. split; [intros ->; reflexivity|intro H; inversion H; reflexivity].
+    + apply Nat.eqb_neq in E. unfold l_empty. split; [intros []|intro H; inversion H; congruence].
+  - rewrite s_union_den, IHr, IHs. unfold l_union. tauto.
+  - assert (Hc : l_cat (rden (deriv a r)) (rden s) w <-> exists u v, w = u ++ v /\ rden r (a :: u) /\ rden s v).
+    { split; intros (u & v & E & Hu & Hs); exists u, v; (split; [exact E|]); (split; [apply IHr; exact Hu|exact Hs]). }
+    destruct (nullable r) eqn:En.
+    + rewrite s_union_den, s_cat_den, Hc, IHs. apply nullable_spec in En. split.
+      * intros [(u & v & -> & Hu & Hs)|Hs].
+        -- exists (a :: u), v. repeat split; assumption.
+        -- exists [], (a :: w). repeat split; assumption.
+      * intros (u & v & E & Hu & Hs). destruct u as [|b u]; simpl in E.
+        -- subst v. right. exact Hs.
+        -- inversion E; subst. left. exists u, v. repeat split; assumption.
+    + rewrite s_cat_den, Hc. split.
+      * intros (u & v & -> & Hu & Hs). exists (a :: u), v. repeat split; assumption.
+      * intros (u & v & E & Hu & Hs). destruct u as [|b u]; simpl in E.
+        -- exfalso. apply nullable_spec in Hu. congruence.
+        -- inversion E; subst. exists u, v. repeat split; assumption.
+  - rewrite s_cat_den. split.
+    + intros (u & v & -> & Hu & Hs). apply IHr in Hu. change (a :: u ++ v) with ((a :: u) ++ v).
+      apply star_app; assumption.
+    + intro H. destruct (star_cons_inv _ _ _ H) as (u & v & -> & Hu & Hs).
+      exists u, v. repeat split; [apply IHr; exact Hu|exact Hs].
+Qed.
+
+Theorem rmatch_spec : forall w r, rmatch r w = true <-> rden r w.
+Proof.
+  unfold rmatch. induction w as [|a w IH]; intro r; simpl.
+  - apply nullable_spec.
+  - rewrite IH. apply deriv_spec.
+Qed.
+
+Lemma words_len_spec syms k w : In w (words_len syms k) <-> Forall (fun a => In a syms) w /\ length w = k.
+Proof.
+  revert w. induction k as [|k IH]; intro w; simpl.
+  - split.
+    + intros [<-|[]]. split; [constructor|reflexivity].
+    + intros [_ H]. destruct w; [left; reflexivity|discriminate].
+  - rewrite in_flat_map. split.
+    + intros (a & Ha & Hw). apply in_map_iff in Hw. destruct Hw as (v & <- & Hv). apply IH in Hv.
+      destruct Hv as [Hv1 Hv2]. split; [constructor; assumption|simpl; congruence].
+    + intros [Hf Hl]. destruct w as [|a v]; [discriminate|]. inversion Hf; subst.
+      exists a. split; [assumption|]. apply in_map. apply IH. split; [assumption|]. simpl in Hl. congruence.
+Qed.
+
+Lemma words_upto_spec syms k w : In w (words_upto syms k) <-> Forall (fun a => In a syms) w /\ length w <= k.
+Proof.
+  induction k as [|k IH].
+  - change (words_upto syms 0) with (words_len syms 0). rewrite words_len_spec. intuition lia.
+  - change (words_upto syms (S k)) with (words_upto syms k ++ words_len syms (S k)).
+    rewrite in_app_iff, IH, words_len_spec. split.
+    + intros [[H1 H2]|[H1 H2]]; (split; [exact H1|lia]).
+    + intros [H1 H2]. destruct (Nat.eq_dec (length w) (S k)) as [E|E]; [right|left]; (split; [exact H1|lia]).
+Qed.
+
+(* the bounded cross check of the driver is exact on its scope *)
+Theorem rex_diff_upto_spec r acc syms k :
+  (rex_diff_upto r acc syms k = None <->
+   forall w, Forall (fun a => In a syms) w -> length w <= k -> (rden r w <-> acc w = true)) /\
+  (forall w, rex_diff_upto r acc syms k = Some w -> ~ (rden r w <-> acc w = true)).
+Proof.
+  unfold rex_diff_upto. split.
+  - split.
+    + intros H w Hw Hk. pose proof (find_none _ _ H w) as Hn.
+      rewrite <- rmatch_spec. specialize (Hn (proj2 (words_upto_spec syms k w) (conj Hw Hk))).
+      simpl in Hn. destruct (rmatch r w), (acc w); simpl in Hn; try discriminate; tauto.
+    + intro H. destruct (find _ _) as [w|] eqn:E; [|reflexivity]. exfalso.
+      apply find_some in E. destruct E as [Hin Hx]. apply words_upto_spec in Hin. destruct Hin as [Hw Hk].
+      specialize (H w Hw Hk). rewrite <- rmatch_spec in H.
+      destruct (rmatch r w), (acc w); simpl in Hx; try discriminate; destruct H as [H1 H2]; auto; discriminate (H2 eq_refl) || discriminate (H1 eq_refl).
+  - intros w E. apply find_some in E. destruct E as [_ Hx]. rewrite <- rmatch_spec.
+    destruct (rmatch r w), (acc w); simpl in Hx; try discriminate; intros [H1 H2]; auto; discriminate (H2 eq_refl) || discriminate (H1 eq_refl).
+Qed.
